@@ -25,7 +25,14 @@ type etaCallee struct {
 
 const etaExtra = `package src
 
-import "verif/rt"
+import (
+	. "github.com/goghcrow/go-co"
+	"verif/rt"
+)
+
+// the helpers live in a processed file (one that uses the API), so that the optimise stage, which
+// only sees processed files, can resolve them
+var _ Iter[int]
 
 func pkgInc(c *rt.Ctx, a int) int { c.X(901, a); return a + 1 }
 
@@ -70,6 +77,8 @@ var etaCallees = []etaCallee{
 	{name: "generic-inst", call: "ident[int]", sig: "(a int) int", args: "a", invoke: "10"},
 	{name: "generic-infer", call: "ident", sig: "(a int) int", args: "a", invoke: "10"},
 	{name: "variadic-spread", call: "pkgSum", sig: "(c *rt.Ctx, xs ...int) int", args: "c, xs...", invoke: "c, 1, 2"},
+	{name: "variadic-forward", call: "pkgSum", sig: "(c *rt.Ctx, xs []int) int", args: "c, xs...", invoke: "c, []int{1, 2}"},
+	{name: "variadic-forward-any", prelude: "var keep any", call: "pkgSum", sig: "(c *rt.Ctx, xs []int) int", args: "c, xs...", invoke: "c, []int{1, 2}", mutate: "keep = h\n\tif _, ok := keep.(func(*rt.Ctx, []int) int); !ok { c.E(77) }"},
 	{name: "widening", prelude: "f := func(a int) int { c.X(1, a); return a + 1 }", call: "f", sig: "(a int) any", args: "a", invoke: "10"},
 	{name: "recvar", prelude: "var fact func(int) int\n\tfact = func(n int) int { c.X(1, n); if n <= 1 { return 1 }; return n * fact(n-1) }", call: "fact", mutate: "old := fact\n\tfact = func(n int) int { c.X(2, n); return old(n) + 1000 }", sig: "(n int) int", args: "n", invoke: "3"},
 }
@@ -79,7 +88,7 @@ var etaParamShapes = []string{"same", "unnamed", "blank", "swapped", "subset", "
 var etaPlaces = []string{"funcbody", "pkgvar", "genbody", "forcond", "yieldarg"}
 
 type etaProg struct {
-	callee      *etaCallee
+	callee       *etaCallee
 	shape, place string
 }
 
@@ -141,7 +150,9 @@ func (p etaProg) text(id string) (string, bool) {
 		invoke = "10, 3"
 	}
 	var sb strings.Builder
-	w := func(ind int, f string, a ...any) { sb.WriteString(strings.Repeat("\t", ind) + fmt.Sprintf(f, a...) + "\n") }
+	w := func(ind int, f string, a ...any) {
+		sb.WriteString(strings.Repeat("\t", ind) + fmt.Sprintf(f, a...) + "\n")
+	}
 	pre := func(ind int) {
 		if cl.prelude != "" {
 			w(ind, "%s", cl.prelude)
